@@ -35,6 +35,7 @@ import deep.logging
 from deep.api.tracepoint.eventsnapshot import WATCH_SOURCE_CAPTURE
 from deep.logging import logging
 from deep.api.tracepoint import WatchResult, Variable
+from deep.api.tracepoint.trigger import read_limit
 from deep.processor.variable_set_processor import VariableSetProcessor, VariableCacheProvider, \
     VariableProcessorConfig
 from deep.utils import str2bool
@@ -75,10 +76,11 @@ class ActionContext(abc.ABC):
         """The variable processing config, from the limits configured on the action."""
         config = VariableProcessorConfig()
         action_config = self.location_action.config if self.location_action is not None else {}
-        config.max_string_length = action_config.get('MAX_STRING_LENGTH', config.DEFAULT_MAX_STRING_LENGTH)
-        config.max_collection_size = action_config.get('MAX_COLLECTION_SIZE', config.DEFAULT_MAX_COLLECTION_SIZE)
-        config.max_variables = action_config.get('MAX_VARIABLES', config.DEFAULT_MAX_VARIABLES)
-        config.max_var_depth = action_config.get('MAX_VAR_DEPTH', config.DEFAULT_MAX_VAR_DEPTH)
+        config.max_string_length = read_limit(action_config, 'MAX_STRING_LENGTH', config.DEFAULT_MAX_STRING_LENGTH)
+        config.max_collection_size = read_limit(action_config, 'MAX_COLLECTION_SIZE',
+                                                config.DEFAULT_MAX_COLLECTION_SIZE)
+        config.max_variables = read_limit(action_config, 'MAX_VARIABLES', config.DEFAULT_MAX_VARIABLES)
+        config.max_var_depth = read_limit(action_config, 'MAX_VAR_DEPTH', config.DEFAULT_MAX_VAR_DEPTH)
         return config
 
     def eval_watch(self, watch: str, source: str) -> Tuple[WatchResult, Dict[str, Variable], str]:
